@@ -114,6 +114,8 @@ for _seed in (1, 2, 3):
             _c(4, 3, [(0, 1), (1, 2), (9, 3)], chooser=_ch, seed=_seed),                     # no marker: last batch by expiry
             _c(2, 3, [(0, 1), (1, 'END'), (1, 5)], end='END', chooser=_ch, seed=_seed),
             _c(3, 3, [(0, 1), (1, 2)], end=None, explicit_none=True, chooser=_ch, seed=_seed),
+            # the arrival pattern of the repo's own test_eager_batcher (unit 0.05 s -> 1): [[1,2,3],[4,5],[6],[7]]
+            _c(3, 4, [(4, 1), (4, 2), (6, 3), (6, 4), (7, 5), (15, 6), (21, 7), (26, None)], chooser=_ch, seed=_seed),
             _c(3, 2, [(0, 1), (1, 2), (3, 3), (4, 4), (9, None)], holds=[2], lazy=True,
                chooser=_ch[:-1] + (0.3,), seed=_seed),                                       # time passes while runnable
             _c(4, 0, [(0, 1), (1, 2), (2, 3), (3, 4), (4, 5), (5, None)], holds=[3, 3], lazy=True,
